@@ -116,6 +116,52 @@ pub fn run(thorough: bool) -> Vec<Part> {
                 part.violations.push(v.clone());
             }
         }
+        // long-lived connection: Expect requests hundreds of requests apart; limits >= 2^32
+        {
+            let exq = |ver: &str, n: usize| format!("PUT /e HTTP/{}\r\nExpect: 100-continue\r\nContent-Length: {}\r\n\r\n{}", ver, n, "b".repeat(n));
+            let mut cases: Vec<(String, Vec<u8>, usize)> = vec![];
+            for gap in [254usize, 255, 256, 257, 511, 512] {
+                let mut st = exq("1.1", 2).into_bytes();
+                for i in 0..gap {
+                    st.extend_from_slice(format!("GET /{} HTTP/1.1\r\n\r\n", i).as_bytes());
+                }
+                st.extend_from_slice(exq("1.0", 3).as_bytes());
+                cases.push((format!("expect, {} plain requests, expect", gap), st, 51200));
+            }
+            for lim in [1usize << 32, (1usize << 32) + 16, usize::MAX] {
+                cases.push((format!("expect with 4- and 17-byte bodies under limit {}", lim), format!("{}{}", exq("1.1", 4), exq("1.0", 17)).into_bytes(), lim));
+            }
+            let t = crate::par::par_enum(
+                cases.len() as u64,
+                workers().min(cases.len()),
+                300,
+                |i, t| {
+                    let (name, st, lim) = &cases[i as usize];
+                    let mut cfg = Cfg::base("C13", name, vec![], *lim);
+                    cfg.stream = Some(st.clone());
+                    cfg.empty_reads = false;
+                    for segs in [vec![st.len()], vec![1024; st.len() / 1024 + 1], vec![13; st.len() / 13 + 1]] {
+                        let (v, _, _, acts) = crate::connx::run_segments(&cfg, &segs, false);
+                        t.evals += 1;
+                        t.nontrivial += 1;
+                        if let Some((sig, d)) = v {
+                            t.violate(&sig, format!("[{}] {}", name, &d[..d.len().min(500)]), crate::connx::schedule_replay(&cfg, &acts[..acts.len().min(300)]));
+                        }
+                    }
+                    t.sample(serde_json::json!({"long_lived_case": name}));
+                },
+                |i| format!("long-lived case {}", i),
+            );
+            part.add("stateless_runs", t.evals);
+            part.add("traces_validated_against_impl", t.evals);
+            part.add("transitions", t.evals);
+            for v in &t.violations {
+                part.violations.push(v.clone());
+            }
+            for e in &t.machinery_errors {
+                part.machinery_errors.push(e.clone());
+            }
+        }
         parts.push(part);
         parts.push(crate::props::srv::c13_server(thorough));
     }
